@@ -121,7 +121,9 @@ def generate(prop, rng):
             else:
                 ops.append({"op": o, "tree": rng.randrange(ntrees), "relink": rng.random() < 0.3,
                             "prompt": rng.choice([None, "decline"]), "link": rng.choice(links),
-                            "force": rng.random() < 0.15, "as_file": rng.random() < 0.2})
+                            "force": rng.random() < 0.15, "as_file": rng.random() < 0.2,
+                            # "no target": the path is no longer wanted at all and is to be removed
+                            "no_target": rng.random() < 0.15})
     else:
         for _ in range(rng.randint(4, 12)):
             o = gen.weighted(rng, [(3, "materialise"), (3, "save_link"), (4, "user_write"), (2, "user_delete"),
@@ -330,6 +332,9 @@ def _exec_c05_checkout(sc, ctx, env):
                 target_obj = env.file_obj(tci) if op.get("as_file") else env.tree_obj(op["tree"])
             except Exception:  # noqa: BLE001  (evicted .dir object: nothing to check out)
                 continue
+            if op.get("no_target"):
+                target_obj = None
+                ctx.probe("checkout_without_target")
             try:
                 checkout(
                     path, env.w.localfs, target_obj, env.odb, force=op["force"], relink=op["relink"],
@@ -350,6 +355,8 @@ def _exec_c05_checkout(sc, ctx, env):
             tgt = {rel: env.contents[ci] for rel, ci in sc["trees"][op["tree"]].items()}
             if op.get("as_file"):
                 tgt = {"": env.contents[tci]}
+            if op.get("no_target"):
+                tgt = {}
             in_way = sorted(r for r, b in U.items() if tgt.get(r) != b)
             if not lost and in_way and raised is None:
                 ctx.violate("unforced-checkout-did-not-refuse", f"relink={op['relink']}",
